@@ -764,6 +764,97 @@ def gen_frontend_tables(repo, outdir, notes):
     write_if_changed(os.path.join(outdir, "GenFrontend.v"), text)
 
 
+def gen_source_ref(repo, outdir, notes):
+    """Shape recognition of SourceRef.back_frame / try_get_line_info (fail closed)."""
+    global CUR_FILE
+    m = Module(repo, "nada_dsl/source_ref.py")
+    CUR_FILE = m.rel
+    c = find_class_node(m, "SourceRef")
+    bf = method(c, "back_frame")
+    body = body_nodoc(bf)
+    first = body[0]
+    if not (isinstance(first, ast.Assign) and isinstance(first.targets[0], ast.Name)):
+        fail(first, "back_frame: first statement is not the frame selection")
+    fvar = first.targets[0].id
+    hops, e = 0, first.value
+    while isinstance(e, ast.Attribute) and e.attr == "f_back":
+        hops += 1
+        e = e.value
+    if ast.unparse(e) != "inspect.currentframe()":
+        fail(first, "back_frame: frame selection does not start from inspect.currentframe()")
+    walks, walk_pred = False, ""
+    rest = body[1:]
+    if rest and isinstance(rest[0], ast.While):
+        w = rest[0]
+        if not (len(w.body) == 1 and ast.unparse(w.body[0]) == f"{fvar} = {fvar}.f_back" and not w.orelse
+                and isinstance(w.test, ast.BoolOp) and isinstance(w.test.op, ast.And) and len(w.test.values) == 2
+                and ast.unparse(w.test.values[0]) == f"{fvar}.f_back is not None"):
+            fail(w, "back_frame: unrecognised frame walk")
+        walks, walk_pred = True, ast.unparse(w.test.values[1])
+        rest = rest[1:]
+    rest_src = [ast.unparse(s0) for s0 in rest]
+    tg = method(c, "try_get_line_info")
+    tb = body_nodoc(tg)
+    # locate: lines = src.splitlines(); if lineno OP len(lines): offset = 0; for i in range(lineno - R): offset += len(lines[i]) + K; return offset, len(lines[lineno - J])
+    idx = next((i for i, s0 in enumerate(tb) if ast.unparse(s0).startswith("lines = ")), None)
+    if idx is None:
+        fail(tg, "try_get_line_info: no `lines = ...`")
+    split_src = ast.unparse(tb[idx].value)
+    iff = tb[idx + 1]
+    if not (isinstance(iff, ast.If) and isinstance(iff.test, ast.Compare) and len(iff.test.ops) == 1
+            and ast.unparse(iff.test.left) == "lineno" and ast.unparse(iff.test.comparators[0]) == "len(lines)"):
+        fail(iff, "try_get_line_info: unrecognised line guard")
+    op = {ast.Lt: "CLt", ast.LtE: "CLe"}.get(type(iff.test.ops[0]))
+    if op is None:
+        fail(iff, "try_get_line_info: guard operator")
+    ib = iff.body
+    pat_ok = (len(ib) == 3 and ast.unparse(ib[0]) == "offset = 0" and isinstance(ib[1], ast.For)
+              and isinstance(ib[2], ast.Return))
+    if not pat_ok:
+        fail(iff, "try_get_line_info: unrecognised accumulation")
+    loop = ib[1]
+    import re as _re
+    mm = _re.fullmatch(r"range\(lineno - (\d+)\)", ast.unparse(loop.iter))
+    aa = _re.fullmatch(r"offset \+= len\(lines\[i\]\) \+ (\d+)", ast.unparse(loop.body[0])) if len(loop.body) == 1 else None
+    rr = _re.fullmatch(r"return \(offset, len\(lines\[lineno - (\d+)\]\)\)", ast.unparse(ib[2]))
+    if not (mm and aa and rr and ast.unparse(loop.target) == "i"):
+        fail(loop, "try_get_line_info: unrecognised accumulation loop")
+    pre = [ast.unparse(s0).replace("\n", " ; ") for s0 in tb[:idx]]
+    tail = [ast.unparse(s0) for s0 in tb[idx + 2:]]
+    # every back_frame() call site of the package, with the number of chained calls
+    sites = []
+    for root, _, files in os.walk(os.path.join(repo, "nada_dsl")):
+        for f in sorted(files):
+            if not f.endswith(".py") or "audit" in root:
+                continue
+            rel = os.path.relpath(os.path.join(root, f), repo)
+            tree = ast.parse(open(os.path.join(root, f), encoding="utf-8").read())
+            for fn in ast.walk(tree):
+                if isinstance(fn, (ast.FunctionDef,)):
+                    for n in ast.walk(fn):
+                        d = back_frame_depth(n)
+                        if d is not None and not (isinstance(getattr(n, "_parent", None), ast.Attribute)):
+                            sites.append((rel, fn.name, n.lineno, d))
+    # keep only maximal chains (a chain of depth 2 contains a depth-1 call at the same position)
+    best = {}
+    for rel, fname, line, d in sites:
+        k = (rel, fname, line)
+        best[k] = max(best.get(k, 0), d)
+    text = HEADER.format(src="source_ref.py (shape recognition) and every SourceRef.back_frame() call site")
+    text += f"Definition bf_hops : Z := {cz(hops)}.\nDefinition bf_walks : bool := {'true' if walks else 'false'}.\n"
+    text += f"Definition bf_walk_pred : string := {cstr(walk_pred)}.\n"
+    text += "Definition bf_rest : list string := " + clist([cstr(x) for x in rest_src]) + ".\n\n"
+    text += f"Definition li_split : string := {cstr(split_src)}.\n"
+    text += f"Definition li_guard_le : bool := {'true' if op == 'CLe' else 'false'}.\n"
+    text += f"Definition li_range_minus : Z := {cz(int(mm.group(1)))}.\nDefinition li_plus : Z := {cz(int(aa.group(1)))}.\n"
+    text += f"Definition li_index_minus : Z := {cz(int(rr.group(1)))}.\n"
+    text += "Definition li_pre : list string := " + clist([cstr(x) for x in pre]) + ".\n"
+    text += "Definition li_tail : list string := " + clist([cstr(x) for x in tail]) + ".\n\n"
+    text += ("Definition back_frame_sites : list (string * string * Z) :=\n  "
+             + clist([f"({cstr(rel)}, {cstr(fn)}, {cz(d)})" for (rel, fn, line), d in sorted(best.items())]) + ".\n")
+    write_if_changed(os.path.join(outdir, "GenSourceRef.v"), text)
+
+
 def gen_classes_all(repo, outdir, notes):
     """Class table of every Nada value class (scalars and collections): MRO, defined methods,
     dataclass-generated __eq__.  Used by C07 (obliviousness)."""
@@ -794,6 +885,7 @@ def main():
         gen_ast_tables(repo, outdir, notes)
         gen_frontend_tables(repo, outdir, notes)
         gen_classes_all(repo, outdir, notes)
+        gen_source_ref(repo, outdir, notes)
     except (ExtractError, KeyError, StopIteration, AttributeError) as e:
         print(f"EXTRACT-ERROR {e}")
         sys.exit(2)
